@@ -363,6 +363,39 @@ func runJCase(srv *lrsrv.Srv, c jcase, sec *vh.Section) (lines, impls []string, 
 		}
 		// asked before the drain in the model (the model iterator is not advanced by it.spec)
 		add("it.spec", rdh.IntsStr(got))
+	} else {
+		// SPEC (ranged iterator, the SAME object with whatever its selector has cached): from head, forward, it must
+		// deliver every stored record whose timestamp is in the range, in stored order (it may deliver more: the
+		// window is only an optimisation, the filter above it drops the rest)
+		it.SetBackward(false)
+		it.SetPos(journal.Pos{})
+		delivered := map[int]bool{}
+		ordered := true
+		last := -1
+		for k := 0; k < 100000; k++ {
+			l := recLabel(it.Get(ctx))
+			if l == "eof" || strings.HasPrefix(l, "ERR") {
+				break
+			}
+			n, _ := strconv.Atoi(l)
+			if n <= last {
+				ordered = false
+			}
+			last = n
+			delivered[n] = true
+			it.Next(ctx)
+		}
+		var missing []int
+		for _, e := range p.Evs {
+			if e.Ts >= c.Range[0] && e.Ts <= c.Range[1] && !delivered[e.Lbl] {
+				missing = append(missing, e.Lbl)
+			}
+		}
+		if len(missing) > 0 || !ordered {
+			specBad = fmt.Sprintf("missing in-range records %v, ordered=%v", missing, ordered)
+			res.SpecFail(vh.SpecFailure{Section: "jiter", Kind: "ranged-iterator-misses-in-range", Input: c, Impl: specBad, Spec: "every record with a timestamp in the range, in stored order",
+				What: "partition.JIterator read forward from head (same object, selector statuses as cached) does not deliver every stored in-range record"})
+		}
 	}
 	return
 }
@@ -482,6 +515,10 @@ type fchunk struct {
 	script []uint32
 	reads  int
 	recs   []string
+	// growAtEOF > 0: at the growOnEOF-th end-of-data answer of a chunk iterator the confirmed count becomes growAtEOF
+	growAtEOF uint32
+	growOnEOF int
+	eofs      int
 }
 
 func (c *fchunk) Close() error                                                       { return nil }
@@ -531,6 +568,13 @@ func (i *fit) Get(ctx context.Context) (records.Record, error) {
 		i.pos = 0
 	}
 	if i.pos >= cnt {
+		// the writer confirms more records right after this end-of-data decision (scripted)
+		if i.c.growAtEOF > 0 {
+			i.c.eofs++
+			if i.c.eofs == i.c.growOnEOF {
+				i.c.script, i.c.reads = []uint32{i.c.growAtEOF}, 0
+			}
+		}
 		return nil, io.EOF
 	}
 	return records.Record(i.c.recs[i.pos]), nil
@@ -586,6 +630,41 @@ type scriptCase struct {
 	Old    int      `json:"old_chunk_records"`
 	New    int      `json:"new_chunk_records"`
 	Script []uint32 `json:"count_script"`
+	// LastChunk: ONE chunk; Old records are confirmed when the reader starts at its beginning; at the GrowOnEOF-th
+	// end-of-data answer of the chunk iterator (1 = the very first EOF, met through the open chunk iterator) the
+	// confirmed count becomes New — records confirmed between the EOF decision and the position the iterator builds
+	LastChunk bool `json:"last_chunk,omitempty"`
+	GrowOnEOF int  `json:"grow_on_eof,omitempty"`
+}
+
+func runScriptedLast(c scriptCase) (got int, first string) {
+	recs := make([]string, c.New)
+	for i := range recs {
+		recs[i] = fmt.Sprintf("r%d", i)
+	}
+	ck := &fchunk{id: 10, script: []uint32{uint32(c.Old)}, recs: recs, growAtEOF: uint32(c.New), growOnEOF: c.GrowOnEOF}
+	j := &fjournal{cks: chunk.Chunks{ck}}
+	it := partition.NewJIterator(model.TimeRange{MinTs: -1 << 61, MaxTs: 1 << 61}, j, fidx{}, frb{})
+	ctx := context.Background()
+	polls := 0
+	first = "-"
+	for k := 0; k < 4*c.New+50 && polls < 12; k++ {
+		rec, err := it.Get(ctx)
+		if err != nil {
+			polls++
+			continue
+		}
+		if got == 0 {
+			first = string(rec)
+		}
+		if string(rec) != fmt.Sprintf("r%d", got) {
+			// a gap or a repetition: report how far the gap-free prefix went
+			return got, first + " then " + string(rec) + fmt.Sprintf(" after %d", got)
+		}
+		got++
+		it.Next(ctx)
+	}
+	return
 }
 
 func runScripted(c scriptCase) (got int, first string) {
@@ -648,9 +727,27 @@ func sectionScripted(rng *vh.Rng) {
 		}
 		cases = append(cases, scriptCase{Old: rng.Range(1, 5), New: 40, Script: append(sc, 7, 7, 40)})
 	}
+	// the reader at the end of the LAST chunk: growth right after the n-th EOF answer of the chunk iterator
+	for _, old := range []int{1, 2, 3, 7} {
+		cases = append(cases, scriptCase{LastChunk: true, Old: old, New: old + rng.Range(1, 9), GrowOnEOF: 1})
+	}
 	for _, c := range cases {
-		got, first := runScripted(c)
+		var got int
+		var first string
+		if c.LastChunk {
+			got, first = runScriptedLast(c)
+		} else {
+			got, first = runScripted(c)
+		}
 		res.Eval(sec, fmt.Sprint(c))
+		if c.LastChunk && (got != c.New || first != "r0") {
+			// class of F59: ONE (last) chunk, growth between the chunk iterator's EOF answer and the position
+			// getPosForward builds in its `idx == n` branch from a fresh Count(); the model (rGetObs) shows the same
+			res.SpecFail(vh.SpecFailure{Section: "scripted", Kind: "tail-skip", Input: c, Impl: fmt.Sprintf("%d records, first %s", got, first),
+				Spec: fmt.Sprintf("%d records, first r0", c.New), Finding: "F59", ImplEqModel: got == c.Old, Model: fmt.Sprintf("%d records (Props.C03.cex_tail_skip_last_chunk)", c.Old),
+				What: "a ranged tail reader at the end of the last chunk skips the records a writer confirmed between the chunk iterator's end-of-data answer and the count getPosForward reads for the position (idx == n branch)"})
+			continue
+		}
 		if got != c.New || first != "r0" {
 			res.SpecFail(vh.SpecFailure{Section: "scripted", Kind: "tail-skip", Input: c, Impl: fmt.Sprintf("%d records, first %s", got, first),
 				Spec: fmt.Sprintf("%d records, first r0", c.New), Finding: "F34a",
@@ -673,6 +770,9 @@ type phist struct {
 	Modes     []string       `json:"modes"`  // per page after the first, cyclic: follow | zeroid | posonly | sweep
 	Limits    []int          `json:"limits"` // per page, cyclic
 	Appends   map[int][]write `json:"appends,omitempty"` // after page k (0-based)
+	// Offset of the FIRST request (one partition, from head): the chain continued by NextQueryRequest must deliver
+	// everything behind the first Offset matching events; the answer's next request must not carry the offset again
+	Offset int `json:"offset,omitempty"`
 }
 
 func genPHist(rng *vh.Rng, chunkSize int, i int) phist {
@@ -699,7 +799,18 @@ func genPHist(rng *vh.Rng, chunkSize int, i int) phist {
 		if rng.Chance(1, 4) {
 			lo = 0
 		}
+		if rng.Chance(1, 4) {
+			// everything stored so far lies below the range: only events appended between pages are in range (a held
+			// cursor built its chunk statuses while every chunk was "all out of range")
+			lo, hi = g.ts+1, g.ts+40
+		}
 		h.Range = &[2]int64{lo, hi}
+	}
+	if np == 1 && !emptyStart && h.Start != "tail" && rng.Chance(1, 3) {
+		h.Offset = rng.PickI([]int{1, 2, 5, total - 1, total, total + 1})
+		if h.Offset < 1 {
+			h.Offset = 1
+		}
 	}
 	// limits: 1, 2, chunk-edge ± 1 (about chunkSize/22 records per chunk), QueryMaxLimit and beyond, mixed
 	edge := chunkSize/22 + 1
@@ -872,8 +983,17 @@ func runPHist(srv *lrsrv.Srv, drv *vh.Driver, h phist, sec *vh.Section, verbose 
 
 	var got []int
 	var perPage [][]int
-	req := &api.QueryRequest{Query: qtext, Limit: h.Limits[0], Pos: h.Start}
+	req := &api.QueryRequest{Query: qtext, Limit: h.Limits[0], Pos: h.Start, Offset: h.Offset}
 	mreq := struct{ id, q, pos string }{"0", "1", rdh.PosToModelStart(h.Start)}
+	// the first request's Offset skips that many of the events matching when it is served (all of them if fewer)
+	skipFirst := 0
+	if h.Offset > 0 && len(w.Parts) == 1 {
+		for _, e := range w.Parts[0].Evs {
+			if rdh.Matches(e, h.Where, h.Range) && skipFirst < h.Offset {
+				skipFirst++
+			}
+		}
+	}
 	expectTotal := func() []rdh.Ev {
 		var all []rdh.Ev
 		for _, p := range w.Parts {
@@ -883,8 +1003,9 @@ func runPHist(srv *lrsrv.Srv, drv *vh.Driver, h phist, sec *vh.Section, verbose 
 				}
 			}
 		}
-		return all
+		return all[skipFirst:]
 	}
+	offsetEchoed := false
 	// the request of page p asks for a held cursor when the transition after page p keeps (or sweeps) it
 	wantsHeld := func(page int) bool {
 		nm := h.Modes[page%len(h.Modes)]
@@ -940,7 +1061,11 @@ func runPHist(srv *lrsrv.Srv, drv *vh.Driver, h phist, sec *vh.Section, verbose 
 		heldId = r.NextQueryRequest.ReqId
 		serverHolds = nowHolds
 		// MODEL
-		mline := fmt.Sprintf("q.page %s %s all %s %s %s %s %s %d 0 %d -", mreq.id, mreq.q, wh, mn, mx, rg, mreq.pos, req.Limit, b2i(req.WaitTimeout > 0))
+		if r.NextQueryRequest.Offset != 0 && !offsetEchoed {
+			offsetEchoed = true
+			fail("next-request-carries-offset", "the NextQueryRequest of an answer carries an Offset: a client that follows it is moved again on every page", fmt.Sprintf("page %d: NextQueryRequest.Offset=%d", page, r.NextQueryRequest.Offset), "Offset 0", "", false, "")
+		}
+		mline := fmt.Sprintf("q.page %s %s all %s %s %s %s %s %d %d %d -", mreq.id, mreq.q, wh, mn, mx, rg, mreq.pos, req.Limit, req.Offset, b2i(req.WaitTimeout > 0))
 		mans := ask(mline)
 		if len(w.Parts) <= 1 && modelOK {
 			implLine := fmt.Sprintf("id0=%v q=%v pos=%s limit=%d ev=%s", r.NextQueryRequest.ReqId == 0, r.NextQueryRequest.Query != "", w.PosToModel(r.NextQueryRequest.Pos), r.NextQueryRequest.Limit, rdh.IntsStr(lbls))
@@ -1592,7 +1717,13 @@ func replay(path string) {
 	case "scripted":
 		var c scriptCase
 		json.Unmarshal(rp.Input, &c)
-		got, first := runScripted(c)
+		var got int
+		var first string
+		if c.LastChunk {
+			got, first = runScriptedLast(c)
+		} else {
+			got, first = runScripted(c)
+		}
 		fmt.Printf("read %d of %d records, first %s\n", got, c.New, first)
 		if got != c.New || first != "r0" {
 			res.SpecFail(vh.SpecFailure{Section: "scripted", Kind: "tail-skip", Input: c, Impl: fmt.Sprintf("%d records, first %s", got, first), Spec: fmt.Sprintf("%d records", c.New), Finding: "F34a", What: "records skipped"})
